@@ -2,41 +2,33 @@
 package dawn
 
 import (
+	"bytes"
+	"encoding/base64"
 	"fmt"
-	"reflect"
-	"unsafe"
 
 	"github.com/pgavlin/dawn/diff"
+	"github.com/pgavlin/dawn/pickle"
 	"go.starlark.net/starlark"
 )
 
-// VerifDiffEnv runs (*function).diffEnv on the given old and new environments. sameEncoding stands for the
-// two environments having the same pickled text (fields oldData/newData, set through reflection so that this
-// file also compiles against a tree that does not have them; supported reports whether they exist).
-func VerifDiffEnv(oldEnv, newEnv starlark.Value, sameEncoding bool) (eq bool, reason string, d diff.ValueDiff, err error, panicked string, supported bool) {
+// VerifEncodeEnv is the encoding the code keeps next to a decoded environment (function.oldData / newData):
+// the value pickled with the pickler functionEnv uses, in base64.
+func VerifEncodeEnv(v starlark.Value) (string, error) {
+	var buf bytes.Buffer
+	if err := pickle.NewEncoder(&buf, newEnvPickler()).Encode(v); err != nil {
+		return "", err
+	}
+	return base64.StdEncoding.EncodeToString(buf.Bytes()), nil
+}
+
+// VerifDiffEnv runs (*function).diffEnv on the given old and new environments and their encodings.
+func VerifDiffEnv(oldEnv, newEnv starlark.Value, oldData, newData string) (eq bool, reason string, d diff.ValueDiff, err error, panicked string) {
 	defer func() {
 		if r := recover(); r != nil {
 			panicked = fmt.Sprint(r)
 		}
 	}()
-	f := &function{oldEnv: oldEnv, newEnv: newEnv}
-	set := func(name, v string) bool {
-		fld := reflect.ValueOf(f).Elem().FieldByName(name)
-		if !fld.IsValid() || fld.Kind() != reflect.String {
-			return false
-		}
-		reflect.NewAt(fld.Type(), unsafe.Pointer(fld.UnsafeAddr())).Elem().SetString(v)
-		return true
-	}
-	supported = true
-	if sameEncoding {
-		supported = set("oldData", "same") && set("newData", "same")
-	} else if set("oldData", "old") {
-		set("newData", "new")
-	}
-	if !supported {
-		return
-	}
+	f := &function{oldEnv: oldEnv, newEnv: newEnv, oldData: oldData, newData: newData}
 	eq, reason, d, err = f.diffEnv()
 	return
 }
